@@ -193,3 +193,85 @@ def tun_packet(rng):
     if k == 3:
         return b"\x00\x00\x86\xdd" + rbytes(rng, rng.randrange(0, 60))
     return b"\x00\x00\x08\x00\x45" + rbytes(rng, rng.randrange(0, 1500))
+
+
+# ------------------------------------------------------------------ C12: datagrams that end early
+def label_offsets(data):
+    """offsets of the label starts of the question name of a well-formed query"""
+    out = []
+    pos = 12
+    while pos < len(data):
+        c = data[pos]
+        if c == 0 or c & 0xC0:
+            break
+        out.append(pos)
+        pos += 1 + c
+    return out
+
+
+def aligned_pointer(rng, prev, domain):
+    """A short query whose name ends in a compression pointer to offset == its own length, sized so that this
+    offset is a label boundary of the (longer) datagram `prev` received just before it."""
+    offs = [o for o in label_offsets(prev) if 20 <= o <= 82]
+    if not offs:
+        return None
+    b = rng.choice(offs)
+    L = b - 19                       # 12 header + 1 + (1+L... see below)
+    # layout: header(12) + len byte(1) + first label (1 + L chars, first char = command) ... keep it simple:
+    # 12 + 1 + n + 2 + 4 = b  ->  n = b - 19
+    n = b - 19
+    if n < 1 or n > 63:
+        return None
+    cmd = rng.choice([b"z", b"Z", b"v", b"y", b"i", b"p", b"0", b"l"])
+    label = cmd + bytes(rng.choice(b"abcdefghijklmnopqrstuvwxyz012345") for _ in range(n - 1))
+    qt = rng.choice([D.T_NULL, D.T_TXT, D.T_CNAME, D.T_A])
+    return hdr(rng.randrange(1, 65536), 0x0100, 1) + bytes([n]) + label + \
+        bytes([0xC0 | (b >> 8), b & 0xFF]) + struct.pack(">HH", qt, 1)
+
+
+def truncation_family(rng, valid, domain, prev=None):
+    """Datagram shapes derived from a valid query `valid`: truncations, and length fields edited so that a label,
+    a compression pointer or the fixed question tail reaches exactly to / one past / far past the end."""
+    if prev is not None and rng.random() < 0.3:
+        d = aligned_pointer(rng, prev, domain)
+        if d is not None:
+            return d
+    k = rng.randrange(12)
+    n = len(valid)
+    if valid[:3] == proto.RAW_HDR:
+        if k < 6:
+            return valid[:rng.randrange(0, n + 1)]
+        return valid[:4] + valid[4:4 + rng.randrange(0, 20)]
+    if k < 4 and n > 0:
+        return valid[:rng.randrange(0, n)]                      # plain truncation at every point
+    if k == 4:                                                  # cut inside the question tail (type/class)
+        return valid[:max(12, n - rng.randrange(1, 16))]
+    m = D.parse(valid)
+    labels = m.qd[0][0] if m.qd else [b"vaaaa"] + D.name_to_labels(domain)
+    qt = m.qd[0][1] if m.qd else 10
+    head = hdr(rng.randrange(1, 65536), 0x0100, 1)
+    if k == 5:      # first label announces more bytes than the datagram holds
+        first = labels[0]
+        keep = rng.randrange(0, len(first) + 1)
+        return head + bytes([min(63, len(first) + rng.choice([0, 1, 5, 30]))]) + first[:keep]
+    if k == 6:      # last label runs exactly to the end; no terminator, no type/class
+        w = D.wire_name(labels)
+        return head + w[:-1]
+    if k == 7:      # name ok, terminator present, type/class missing or partial
+        w = D.wire_name(labels)
+        return head + w + struct.pack(">HH", qt, 1)[:rng.randrange(0, 4)]
+    if k == 8:      # compression pointer as the last label, target == len / len-1 / beyond
+        w = D.wire_name(labels[:1])[:-1]
+        total = 12 + len(w) + 2 + 4
+        tgt = rng.choice([total, total - 1, total + 1, total + 50, 12 + len(w) + 2, 0x3FFF])
+        return head + w + bytes([0xC0 | (tgt >> 8) & 0x3F, tgt & 0xFF]) + struct.pack(">HH", qt, 1)
+    if k == 9:      # pointer whose second byte is missing
+        w = D.wire_name(labels[:1])[:-1]
+        return head + w + b"\xc0"
+    if k == 10:     # data part shortened but domain kept: a short-but-valid tunnel request
+        dom = D.name_to_labels(domain)
+        first = labels[0][:rng.randrange(1, max(2, len(labels[0])))]
+        return head + D.wire_name([first] + dom) + struct.pack(">HH", qt, 1)
+    # header says one question, nothing follows / QDCOUNT bigger than present
+    return hdr(rng.randrange(1, 65536), 0x0100, rng.choice([1, 2])) + (D.wire_name(labels) + struct.pack(">HH", qt, 1)
+                                                                        if rng.random() < 0.5 else b"")
